@@ -1,0 +1,62 @@
+//go:build verif
+
+// Verification hooks for the schedule controller (build tag "verif"); see verif_on.go.
+
+package sugardb
+
+import (
+	"fmt"
+	"github.com/echovault/sugardb/internal"
+	"sort"
+	"strings"
+	"time"
+)
+
+// VerifStateCopy takes the copy of the state a snapshot starts from (the snapshot engine's own
+// getState function, on the caller's goroutine) and renders it like VerifDigest renders the store:
+// databases that hold keys, keys in order, values, deadlines (unix ms, 0 = none).
+func (server *SugarDB) VerifStateCopy() string {
+	return server.VerifStateCopyLate()()
+}
+
+// VerifStateCopyLate takes the copy now and returns the function that renders it: a snapshot is encoded after the
+// copy has been taken, while commands run again.
+func (server *SugarDB) VerifStateCopyLate() func() string {
+	state := server.snapshotEngine.VerifGetState()
+	return func() string { return verifRenderState(state) }
+}
+
+func verifRenderState(state map[int]map[string]internal.KeyData) string {
+	dbs := make([]int, 0, len(state))
+	for db := range state {
+		dbs = append(dbs, db)
+	}
+	sort.Ints(dbs)
+	parts := make([]string, 0, len(dbs))
+	for _, db := range dbs {
+		keys := make([]string, 0, len(state[db]))
+		for k := range state[db] {
+			keys = append(keys, k)
+		}
+		if len(keys) == 0 {
+			continue
+		}
+		sort.Strings(keys)
+		var sb strings.Builder
+		fmt.Fprintf(&sb, "db%d{", db)
+		for i, k := range keys {
+			if i > 0 {
+				sb.WriteString(" ")
+			}
+			e := state[db][k]
+			var ms int64
+			if e.ExpireAt != (time.Time{}) {
+				ms = e.ExpireAt.UnixMilli()
+			}
+			fmt.Fprintf(&sb, "%s=%s@%d", verifHex(k), VerifValue(e.Value), ms)
+		}
+		sb.WriteString("}")
+		parts = append(parts, sb.String())
+	}
+	return strings.Join(parts, " ")
+}
